@@ -233,7 +233,7 @@ class SymEx:
             fs[proj[0]["i"]] = val
             env[p_local] = (cur[0], cur[1], cur[2], tuple(fs))
             return
-        st.events.append(("write", loc, fid, p_local, path, val))
+        st.events.append(("write", loc, fid, p_local, path, val, _ident(cur)))
         if cur[0] == "obj":
             over = tuple((pp, vv) for pp, vv in cur[2] if pp != path) + ((path, val),)
             env[p_local] = ("obj", cur[1], over)
@@ -331,10 +331,7 @@ class SymEx:
         d0 = d
         while is_bool and d0[0] == "un" and d0[1] == "Not":
             d0, neg = d0[2], not neg
-        if d0[0] == "bin" and d0[1] in ("Eq", "Ne"):
-            x, y = strip_refs(d0[2]), strip_refs(d0[3])
-            if x[0] == "agg" and y[0] == "agg" and x[1] == y[1] and not x[3] and not y[3] and x[2] and y[2]:
-                d0 = ("const", (x[2] == y[2]) == (d0[1] == "Eq"))
+        d0 = fold_ground_eq(d0)
         flip = False
         if d0[0] == "trydiscr":
             # discriminant of the ControlFlow made from an Option: Continue(0) <=> Some(1)
@@ -486,8 +483,11 @@ class SymEx:
         if e[0] == "call":
             e = ("call", e[1], e[2], None if e[3] is None else loc)
         if e[0] != "call":
-            return ret(e)
-        st.events.append(("call", loc, callee, args, e, dest["local"] if not dest["proj"] else None))
+            return ret(fold_ground_eq(e))
+        # identity of the object behind each `&mut local` argument: the call that created it (so that a
+        # rule can follow one object through moves between locals)
+        ids = tuple(_ident(self.read_addr(st, a)) if a[0] == "addr" else None for a in args)
+        st.events.append(("call", loc, callee, args, e, dest["local"] if not dest["proj"] else None, ids))
         # a callee that gets `&mut local` may change it: forget field overlays unless the callee is one
         # of the successor-construction helpers (whose effect is modelled by rules/successor.py)
         for a in args:
@@ -566,6 +566,15 @@ SymEx._generic = _generic
 SymEx._call_closure = _call_closure
 
 
+def _ident(v):
+    """Identity of an object value: (creating callee, creation location), through field overlays."""
+    while v is not None and v[0] == "obj":
+        v = v[1]
+    if v is not None and v[0] == "call" and v[3] is not None:
+        return (v[1], v[3])
+    return None
+
+
 def _freeze(el, fe):
     if el["k"] == "index":
         return ("index", fe.local(el["local"]))
@@ -609,7 +618,7 @@ def carried_locals(body, header, blocks):
     return out
 
 
-def summarise_loop(facts, body, ex, header, blocks, stop=(), inline=None):
+def summarise_loop(facts, body, ex, header, blocks, stop=(), inline=None, init_env=None):
     """One symbolic iteration of the natural loop (header, blocks).
     Returns (carried, paths): paths end 'stop' at the header (a continue path: path.env holds the
     carried update in terms of ('sym', l)), or at a `stop` block / return (exit paths).  Locals
@@ -633,6 +642,7 @@ def summarise_loop(facts, body, ex, header, blocks, stop=(), inline=None):
             v = _lazy_of_expr(ex._def_expr(l, ds[0][0]))
             if v is not None:
                 env[l] = ("giter", v)
+    env.update(init_env or {})
 
     def fallback(l):
         if l in assigned and l not in carried:
@@ -642,6 +652,114 @@ def summarise_loop(facts, body, ex, header, blocks, stop=(), inline=None):
     back = {(a, header) for a in body.pred.get(header, []) if a in blocks}
     paths = sx.run(body, header, env, stop=set(stop), fallback=fallback, stop_edges=back)
     return carried, paths
+
+
+def _skeleton(e, name):
+    """Aggregate skeleton of an initial value: constructors kept, everything else a state symbol
+    ('sym', name) with name = '<local>' or '<local>/<i>/<j>..' (child indices)."""
+    e0 = strip_refs(e) if e is not None else None
+    if e0 is not None and e0[0] == "agg" and e0[1] not in ("closure", "array") and e0[3] and not e0[1].endswith("ops::Range"):
+        return (e0[0], e0[1], e0[2], tuple(_skeleton(x, "%s/%d" % (name, i)) for i, x in enumerate(e0[3])))
+    return ("sym", name)
+
+
+def _same_shape(skel, val):
+    """Does the value have the skeleton's constructors (so the shape is preserved by the iteration)?
+    Returns the name of the outermost skeleton node that is not matched, or None."""
+    if skel[0] == "sym":
+        return None
+    v = strip_refs(val) if val is not None else None
+    if v is None or v[0] != "agg" or v[1] != skel[1] or v[2] != skel[2] or len(v[3]) != len(skel[3]):
+        return "MISMATCH"
+    for i, (a, c) in enumerate(zip(skel[3], v[3])):
+        r = _same_shape(a, c)
+        if r is not None:
+            return r if r != "MISMATCH" else ("MISMATCH", i)
+    return None
+
+
+def state_path(name):
+    """State symbol name -> (local, (child indices...))."""
+    if isinstance(name, int):
+        return name, ()
+    parts = str(name).split("/")
+    return int(parts[0]), tuple(int(x) for x in parts[1:])
+
+
+def descend(val, path):
+    """Component of a value along child indices (None when the value has not that shape)."""
+    for i in path:
+        val = strip_refs(val) if val is not None else None
+        if val is None or val[0] != "agg" or i >= len(val[3]):
+            return None
+        val = val[3][i]
+    return val
+
+
+def summarise_loop_state(facts, body, ex, header, blocks, stop=(), inline=None):
+    """summarise_loop with the loop-carried state split into components: a carried variable that
+    enters the loop as an aggregate (`Some((r0, c0))`, a tuple, a struct) and is rebuilt with the same
+    constructors by every continuing path has that shape at every iteration (induction), so it is
+    represented as that skeleton over one state symbol per leaf and its discriminants fold.
+    Returns (state, paths); state: {symbol name: (initial expression or None)}; the value of a state
+    symbol after a continuing path p is descend(p.env[local], path) with (local, path) =
+    state_path(name)."""
+    carried = carried_locals(body, header, blocks)
+    rd = body.reaching()
+    inits = {}
+    for l in carried:
+        ds = [(dloc, k) for dloc, k in rd.defs(l, (header, 0)) if k != "borrow" and (k == "entry" or dloc[0] not in blocks)]
+        inits[l] = ex._def_expr(l, ds[0][0]) if len(ds) == 1 and ds[0][1] == "whole" else None
+    flat = set()
+    paths = []
+    skels = {}
+    for _ in range(4):
+        skels = {l: (("sym", l) if l in flat else _skeleton(inits[l], str(l))) for l in carried}
+        skels = {l: (("sym", l) if v == ("sym", str(l)) else v) for l, v in skels.items()}
+        _, paths = summarise_loop(facts, body, ex, header, blocks, stop=stop, inline=inline, init_env={l: v for l, v in skels.items() if v[0] != "sym"})
+        cont = [p for p in paths if p.end == "stop" and p.end_bb == header]
+        bad = {l for l, sk in skels.items() if sk[0] != "sym" and any(_same_shape(sk, p.env.get(l)) is not None for p in cont)}
+        if not bad:
+            break
+        flat |= bad
+    state = {}
+
+    def leaves(sk, init):
+        if sk[0] == "sym":
+            state[sk[1]] = init
+            return
+        i0 = strip_refs(init) if init is not None else None
+        for i, c in enumerate(sk[3]):
+            leaves(c, i0[3][i] if i0 is not None and i0[0] == "agg" and i < len(i0[3]) else None)
+    for l in carried:
+        leaves(skels[l], inits[l])
+    return state, paths
+
+
+def ground(e):
+    """Is the value fully concrete (constants and aggregates of concrete values)?"""
+    e = strip_refs(e)
+    if e[0] in ("const", "char", "str", "unit"):
+        return True
+    return e[0] == "agg" and e[1] != "closure" and all(ground(x) for x in e[3])
+
+
+def _unref(e):
+    e = strip_refs(e)
+    if e[0] == "agg":
+        return (e[0], e[1], e[2], tuple(_unref(x) for x in e[3]))
+    return e
+
+
+def fold_ground_eq(e):
+    """`x == y` / `x != y` on two fully concrete values of one type is structural equality (the
+    derived PartialEq; that the crate's impls are the derived ones is R0.1's derived-eq obligation)."""
+    if e[0] == "bin" and e[1] in ("Eq", "Ne") and ground(e[2]) and ground(e[3]):
+        x, y = _unref(e[2]), _unref(e[3])
+        if x[0] == y[0] == "agg" and x[1] != y[1]:
+            return e
+        return ("const", (x == y) == (e[1] == "Eq"))
+    return e
 
 
 def gen_range(e):
